@@ -783,6 +783,12 @@ func (t *Terminal) readLine() (line string, err error) {
 
 		// t.remainder is a slice at the beginning of t.inBuf
 		// containing a partial key sequence
+		if len(t.remainder) == len(t.inBuf) {
+			// the buffer is full of an unterminated key sequence: drop it,
+			// the read below would have no room and spin without progress
+			t.remainder = nil
+		}
+
 		readBuf := t.inBuf[len(t.remainder):]
 		var n int
 
